@@ -140,6 +140,16 @@ def run_pair(case):
   if not ((p + q) == (q + p)) or not ((p * q) == (q * p)) or (p + q) != (q + p) or (p * q) != (q * p) \
      or hash(p + q) != hash(q + p) or hash(p * q) != hash(q * p):
     return bad("ring:commutative:eq", "commuted results must be ==, not != and hash equally", None, None, n)
+  # the same operators on operands that were hashed first (hashing may cache inside the object)
+  hp_, hq_ = mk(ps), mk(qs)
+  hash(hp_), hash(hq_)
+  for name, got, exp in (("add", hp_ + hq_, rr.padd(rp, rq)), ("sub", hp_ - hq_, rr.psub(rp, rq)),
+                         ("mul", hp_ * hq_, rr.pmul(rp, rq))):
+    fresh = Poly(dict(exp))
+    if not (got == fresh) or hash(got) != hash(fresh):
+      return bad("eq:hash-after-hash", "%s of already hashed operands must equal, and hash like, a freshly built "
+                 "equal polynomial" % name, {"terms": exp, "hash": hash(fresh)},
+                 {"terms": dict(got.terms()), "hash": hash(got)}, n)
   # equality / hash
   e, ne = (p == q), (p != q)
   same = rp == rq
@@ -247,6 +257,27 @@ def run_single(case):
                  "and not be !=", {"zeros": [repr(zs[a]), repr(zs[b])]}, [hash(pa), hash(pb), pa != pb], n)
     if (pa == pb) == (pa != pb):
       return bad("eq:exclusive", "exactly one of == and != must hold", None, [pa == pb, pa != pb], n)
+  # numbers are the constant polynomials: p == s exactly when p - s is the empty polynomial
+  c0 = rp.get(0, F(0))
+  for sv in (0, F(0), 0.0, False, 1, F(1, 2), c0, -c0, c0 + 1, float(c0)):
+    want = rr.psub(rp, {0: F(sv)} if sv != 0 else {}) == {}
+    got = [p == sv, sv == p, not (p != sv), not (sv != p), p == Poly(sv), Poly(sv) == p]
+    if any(g is not want for g in got):
+      return bad("eq:scalar", "p == number must hold exactly when p is that constant polynomial (both operand orders, "
+                 "== and != consistent, same as comparing with Poly(number))", {"number": repr(sv), "equal": want}, got, n)
+  # a history: the operand was hashed BEFORE the operation (hashing freezes a Poly and may cache);
+  # results are new objects and hash like any equal polynomial
+  ph = mk(ps)
+  hp = hash(ph)
+  for name, res, refd in (("-p", -ph, rr.pneg(rp)), ("+p", +ph, rp), ("p*1", ph * 1, rp), ("p+0", ph + 0, rp),
+                          ("p-0", ph - 0, rp), ("p**1", ph ** 1, rp), ("p.copy()", ph.copy(), rp),
+                          ("p.diff()", ph.diff(), rr.pdiff(rp)), ("p*p", ph * ph, rr.pmul(rp, rp))):
+    fresh = Poly({k: c for k, c in refd.items()})
+    if not (res == fresh) or hash(res) != hash(fresh) or (res in {fresh: 1}) is not True:
+      return bad("eq:hash-after-hash", "%s of an already hashed p must equal, and hash like, a freshly built equal "
+                 "polynomial" % name, {"terms": refd, "hash": hash(fresh)}, {"terms": dict(res.terms()), "hash": hash(res)}, n)
+  if hash(ph) != hp or terms(ph) != rp:
+    return bad("ring:operand-mutated", "an operator modified its (hashed) operand", rp, dict(ph.terms()), n)
   if terms(p) != rp:
     return bad("ring:operand-mutated", "an operator modified its operand", rp, dict(p.terms()), n)
   # order / values
